@@ -220,6 +220,11 @@ theorem Good_snap {s0 s : SDB} {live : List SDB.Op} {F : List Frame} (hG : Good 
     obtain ⟨_, fe, fm, _⟩ := hG.fr f hf
     exact ⟨fe, fm⟩
 
+theorem Good_keep {s0 s : SDB} {live : List SDB.Op} {F : List Frame} (hG : Good s0 s live F)
+    (n : Nat) : Good s0 s live (F.take n) :=
+  ⟨hG.inv, hG.cur, fun f hf => hG.fr f (List.mem_of_mem_take hf),
+    List.Pairwise.sublist (List.take_sublist _ _) hG.pw⟩
+
 theorem Good_rollbackTo {s0 s : SDB} {live : List SDB.Op} {F : List Frame} (hG : Good s0 s live F)
     {j : Nat} {f : Frame} (hj : F[j]? = some f) :
     s.blockRollback f.st.blockSnapshot = some f.st ∧
@@ -295,5 +300,9 @@ theorem runB_Good (s0 : SDB) : ∀ (h : List BOp) (s : SDB) (live : List SDB.Op)
           have hmark : (F.map (·.mark))[j]? = some f.mark := by
             rw [List.getElem?_map, hfj]; rfl
           simpa only [survivorsAux, hmark, ← List.map_take] using this
+    | keep n =>
+      simp only [runB, ← List.map_take] at hr
+      have := ih s live (F.take n) r (Good_keep hG n) hr
+      simpa only [survivorsAux, ← List.map_take] using this
 
 end Aergo.Buffer
